@@ -134,6 +134,9 @@ func runC07(r *core.Run) {
 							} else if quick && la != "C" {
 								lbs = []string{"C", la}
 							}
+							if form == "TT" && (ok.kind == "arith" || ok.kind == "cmp") {
+								lbs = append(append([]string{}, lbs...), "=a") // x op x: the same tensor as both operands
+							}
 							for _, lb := range lbs {
 								if strings.HasPrefix(strings.TrimPrefix(mode, "same+"), "reuse=") && false {
 									continue
